@@ -1081,39 +1081,75 @@ def ec4(repo: Repo) -> RuleResult:
     res.inst(part="control", le_word_casts=ctl, be_casts=n_casts)
     if ctl < 2:
         res.unsure(f"EC4: positive control failed: the little-endian copier shows only {ctl} word casts (4 confirmed by hand)")
-    # (b) staging in BpEndecodeBaseType (BE)
-    f = be.func("BpEndecodeBaseType")
-    st = f.body.stmts
-    size = [s for s in st if s.k == "assign" and go_src(s.lhs[0]) == "size"]
-    ok_size = len(size) == 1 and txt(size[0].rhs[0]) == "BpBaseTypeStorageSizenbits"
-    le_decl = [s for s in st if s.k == "assign" and go_src(s.lhs[0]) == "le"]
-    ok_buf = len(le_decl) == 1 and le_decl[0].get("decl_type", "").replace(" ", "") == "unsignedchar[8]" and all(e.k == "int" and e.v == 0 for e in le_decl[0].rhs[0].get("elts", [N_block([])])[:1]) and le_decl[0].rhs[0].k == "initlist"
-    res.inst(part="staging", size=go_src(size[0].rhs[0]) if size else None, buffer=le_decl[0].get("decl_type") if le_decl else None)
-    if not ok_size:
-        res.bad(Finding("EC4", C_RT, f.line, "BpEndecodeBaseType", "", "big-endian staging size is not BpBaseTypeStorageSize(nbits)", witness="uint12 in a uint16_t: the wrong bytes are reversed", tag="be:staging:size"))
-    if not ok_buf:
-        res.bad(Finding("EC4", C_RT, f.line, "BpEndecodeBaseType", "", "the staging buffer is not a zero-initialised unsigned char[8]", witness="stale stack bytes are ORed into the decoded value", tag="be:staging:buffer"))
-    loops = [x for x in walk(f) if x.get("k") == "for"]
-    forms = []
-    for lp in loops:
-        g = _guards_of(f, lp.body.stmts[0]) if lp.body.stmts else set()
-        a = lp.body.stmts[0] if lp.body.stmts and lp.body.stmts[0].k == "assign" else None
-        forms.append((go_src(lp.cond) if lp.cond else "", f"{txt(a.lhs[0])}={txt(a.rhs[0])}" if a else "", "enc" if "ctx.is_encode" in g else "dec"))
-    res.inst(part="staging", loops=forms)
-    want = {("k < size", "le[k]=p[size-1-k]", "enc"), ("k < size", "p[size-1-k]=le[k]", "dec")}
-    if set(forms) != want:
-        res.bad(Finding("EC4", C_RT, f.line, "BpEndecodeBaseType", str(forms), "staging does not reverse exactly `size` bytes: native -> little-endian before the copy on encode, little-endian -> native after the copy on decode", witness="any multi-byte integer on a big-endian host", tag="be:staging:loops"))
-    # order: encode reverses before the copy, decode after
-    seq = []
-    for s in walk(f):
-        if s.get("k") == "for":
-            seq.append(("loop", s.line))
-        if s.get("k") == "call" and go_src(s.f) == "BpCopyBufferBits":
-            seq.append(("copy", s.line))
-    seq.sort(key=lambda t: t[1])
-    res.inst(part="staging", order=[k for k, _ in seq])
-    if [k for k, _ in seq] != ["loop", "copy", "copy", "loop"]:
-        res.bad(Finding("EC4", C_RT, f.line, "BpEndecodeBaseType", str(seq), "staging and copying are not ordered reverse->copy (encode) / copy->reverse (decode)", tag="be:staging:order"))
+    # (b) staging in BpEndecodeBaseType (BE), from the path summary
+    from .flows import c_runtime
+    from .normal import C as K, V, call as pcall, show
+    from .pyflow import single_atom
+    from .rules_d2 import ENC, truth
+
+    try:
+        L = c_runtime(repo, True)
+        fn = L.func("BpEndecodeBaseType")
+        params = [a.arg for a in fn.args.args]
+        paths = L.flow(None, names={"ctx.is_encode": "is_encode", "ctx.i": "cur"}, primitives=("BpCopyBufferBits", "BpBaseTypeStorageSize"), pure=("BpBaseTypeStorageSize",), havoc_on=()).run(fn)
+    except Inconclusive as e:
+        res.unsure(f"EC4: {e}")
+        return res
+    pnbits, pdata = (params[0], params[2]) if len(params) == 3 else ("nbits", "data")
+    size = pcall("BpBaseTypeStorageSize", V(pnbits))
+    summary = []
+    for p_ in paths:
+        enc = truth(p_, ENC)
+        seq = [e for e in p_.effects if e.kind == "loop" or (e.kind == "call" and e.name == "BpCopyBufferBits")]
+        kinds = ["loop" if e.kind == "loop" else "copy" for e in seq]
+        summary.append((enc, kinds))
+        if enc is None:
+            res.unsure("EC4: a path of the big-endian BpEndecodeBaseType is not selected by the encode flag")
+            continue
+        copies = [e for e in seq if e.kind == "call"]
+        loops = [e for e in seq if e.kind == "loop"]
+        if len(copies) != 1:
+            continue  # EC3 reports this
+        stage = copies[0].args[2] if enc else copies[0].args[1]
+        sa_ = single_atom(stage)
+        if sa_ is None or sa_[0] != "arr":
+            res.bad(Finding("EC4", C_RT, fn.lineno, "BpEndecodeBaseType", show(stage), "big-endian build: the bits are not copied through a local staging buffer: the value's bytes reach the wire in host order", witness="uint32 on a big-endian host: the wire bytes come out reversed", tag="be:staging:buffer"))
+            continue
+        zero = sa_[2].replace(" ", "") == "unsignedchar[8]" and all(x.const_value() == 0 for x in (single_atom(sa_[3])[1] if single_atom(sa_[3]) is not None and single_atom(sa_[3])[0] == "tuple" else [K(1)]))
+        if not zero:
+            res.bad(Finding("EC4", C_RT, fn.lineno, "BpEndecodeBaseType", f"{sa_[1]}: {sa_[2]}", "the staging buffer is not a zero-initialised unsigned char[8]", witness="stale stack bytes are ORed into the decoded value", tag="be:staging:buffer"))
+        if len(loops) != 1:
+            res.bad(Finding("EC4", C_RT, fn.lineno, "BpEndecodeBaseType", str(kinds), f"the {'encode' if enc else 'decode'} path has {len(loops)} byte-reversal loops (expected one)", witness="any multi-byte integer on a big-endian host", tag="be:staging:loops"))
+            continue
+        lp = loops[0]
+        if (enc and kinds != ["loop", "copy"]) or ((not enc) and kinds != ["copy", "loop"]):
+            res.bad(Finding("EC4", C_RT, fn.lineno, "BpEndecodeBaseType", str(kinds), "staging and copying are not ordered reverse->copy (encode) / copy->reverse (decode)", tag="be:staging:order"))
+        kvar = lp.node.target.id if hasattr(lp.node, "target") and hasattr(lp.node.target, "id") else "k"
+        k = V(kvar)
+        it = lp.args[0] if lp.args else None
+        ok_loop = it == pcall("range", size)
+        ok_body = True
+        for sp in lp.sub or []:
+            sts = [e for e in sp.effects if e.kind == "store"]
+            if len(sts) != 1:
+                ok_body = False
+                continue
+            s_ = sts[0]
+            idx, val = s_.args
+            va = single_atom(val)
+            if enc:
+                ok_body = ok_body and s_.recv == stage and idx == k and va is not None and va[0] == "load" and va[1] == pdata and va[2] == size - k - K(1) and s_.op == "="
+            else:
+                ok_body = ok_body and s_.recv is not None and show(s_.recv) == pdata and idx == size - k - K(1) and va is not None and va[0] == "load" and va[1] == stage and va[2] == k and s_.op == "="
+        if not ok_loop:
+            a_ = single_atom(it) if it is not None else None
+            if a_ is not None and a_[0] == "call" and a_[1] == "range":
+                res.bad(Finding("EC4", C_RT, fn.lineno, "BpEndecodeBaseType", show(it), f"big-endian staging reverses `{show(a_[2][0])}` bytes, not BpBaseTypeStorageSize(nbits)", witness="uint12 in a uint16_t: the wrong bytes are reversed", tag="be:staging:size"))
+            else:
+                res.unsure(f"EC4: reversal loop iterates `{show(it) if it is not None else None}`")
+        elif not ok_body:
+            res.bad(Finding("EC4", C_RT, fn.lineno, "BpEndecodeBaseType", str([repr(e) for sp in lp.sub or [] for e in sp.effects]), "staging does not reverse exactly `size` bytes: native -> little-endian before the copy on encode, little-endian -> native after the copy on decode", witness="any multi-byte integer on a big-endian host", tag="be:staging:loops"))
+    res.inst(part="staging", paths=summary)
     return res
 
 
